@@ -11,23 +11,28 @@ class NoEval(Exception):
     pass
 
 
-def eval_term(t: Term, env: Dict[int, int]):
-    """value of an arithmetic / boolean term under an assignment of integers to (the uids of) some of its leaves; the checker's own arithmetic"""
+def eval_term(t: Term, env: Dict[int, int], leaf=None):
+    """value of an arithmetic / boolean term under an assignment of integers to (the uids of) some of its leaves; the checker's own arithmetic.
+    `leaf(term, recurse)` may give the value of terms the evaluator does not know (attribute reads, calls of named helper functions); it returns None to decline."""
     t = unsnap(t)
     if t.uid in env:
         return env[t.uid]
+    if leaf is not None:
+        v = leaf(t, lambda x: eval_term(x, env, leaf))
+        if v is not None:
+            return v
     if is_const(t):
         return cval(t)
     if t.op == "bin":
         op, a, b = t.args
-        x, y = eval_term(a, env), eval_term(b, env)
+        x, y = eval_term(a, env, leaf), eval_term(b, env, leaf)
         try:
             return {"Add": lambda: x + y, "Sub": lambda: x - y, "Mult": lambda: x * y, "FloorDiv": lambda: x // y, "Mod": lambda: x % y, "BitAnd": lambda: x & y, "BitOr": lambda: x | y,
                     "BitXor": lambda: x ^ y, "RShift": lambda: x >> y, "LShift": lambda: x << y}[op]()
         except KeyError:
             raise NoEval(op)
     if t.op == "un":
-        x = eval_term(t.args[1], env)
+        x = eval_term(t.args[1], env, leaf)
         if t.args[0] == "USub":
             return -x
         if t.args[0] == "Not":
@@ -35,18 +40,18 @@ def eval_term(t: Term, env: Dict[int, int]):
         raise NoEval(t.args[0])
     if t.op == "cmp":
         op, a, b = t.args
-        x, y = eval_term(a, env), eval_term(b, env)
+        x, y = eval_term(a, env, leaf), eval_term(b, env, leaf)
         try:
             return {"Lt": x < y, "LtE": x <= y, "Gt": x > y, "GtE": x >= y, "Eq": x == y, "NotEq": x != y}[op]
         except KeyError:
             raise NoEval(op)
     if t.op == "truthy":
-        return bool(eval_term(t.args[0], env))
+        return bool(eval_term(t.args[0], env, leaf))
     if t.op in ("and", "or"):
-        vs = [bool(eval_term(x, env)) for x in t.args[0]]
+        vs = [bool(eval_term(x, env, leaf)) for x in t.args[0]]
         return all(vs) if t.op == "and" else any(vs)
     if t.op == "phi":
-        return eval_term(t.args[1], env) if eval_term(t.args[0], env) else eval_term(t.args[2], env)
+        return eval_term(t.args[1], env, leaf) if eval_term(t.args[0], env, leaf) else eval_term(t.args[2], env, leaf)
     raise NoEval(t.op)
 
 
